@@ -221,13 +221,6 @@ def build(spec):
     if k == "nparr":
         dtype, data = spec[1], spec[2]
 
-        def conv(x):
-            if isinstance(x, list) and not (x and isinstance(x[0], str) and x[0] in _KINDS):
-                return [conv(y) for y in x]
-            if isinstance(x, list):
-                return build(x)
-            return x
-
         if dtype == "object":
             items = [build(x) for x in data]
             a = numpy.empty(len(items), dtype=object)
@@ -500,13 +493,15 @@ def known(case, obs):
     shown = _rendered_rows(case)
     if any(_bad_td(c) for i in shown for c in case["rows"][i]):
         return "F-C18-3"
-    if any(U0001 in nm for nm in case["names"]):
-        return "F-C18-4"
-    for i in shown:
-        for c in case["rows"][i]:
-            d = cell_term(c)[1]
-            if any(U0001 in t for t in d.texts) or U0001.encode() in d.raw:
-                return "F-C18-4"
+    # F-C18-4 breaks the equal-width clause, which speaks about printable-ASCII content only
+    if ascii_only(case):
+        if any(U0001 in nm for nm in case["names"]):
+            return "F-C18-4"
+        for i in shown:
+            for c in case["rows"][i]:
+                d = cell_term(c)[1]
+                if any(U0001 in t for t in d.texts) or U0001.encode() in d.raw:
+                    return "F-C18-4"
     if case["lazy"] and not cfg["tt"] and min(n, cfg["limit"]) >= 100:
         return "F-C18-5"
     return None
@@ -591,7 +586,7 @@ def _obs_term(o):
         if o["exc"] in ("ValueError", "TypeError", "UnicodeDecodeError"):
             return "(ORaise %s)" % o["exc"]
         return "OOther"
-    return "(OText %s %s)" % (L.nat(len(o["text"])), L.N(digest(o["text"])))
+    return "(OText %s %s)" % (L.N(len(o["text"])), L.N(digest(o["text"])))
 
 
 def _coltype_term(col):
@@ -607,7 +602,7 @@ def _coltype_term(col):
 
 def to_coq(case, obs):
     cfg = case["cfg"]
-    if max(len(o.get("text", "")) for o in obs.values()) > 5000:
+    if max(len(o.get("text", "")) for o in obs.values()) > 20000:  # resource bound on one Coq term
         return None
     rows = L.lst(L.lst(cell_term(c)[0] for c in r) for r in case["rows"])
     if case["schema"] is None:
@@ -687,6 +682,8 @@ CTRL_WORDS = ["a\nb", "a\r\nb", "\n\n\n\n\n\n", "tab\there", "nul\x00", "\x01OFF
 
 def _rand_text(rng, mode):
     r = rng.random()
+    if rng.random() < 0.003:  # the F-C18-4 class does occur (such cases run under its guard)
+        return rng.choice(["\\u0001OFFm", "x\\u0001REDmy", "\\u0001"])
     if mode == "ascii" or r < 0.45:
         if rng.random() < 0.5:
             return rng.choice(ASCII_WORDS)
@@ -809,6 +806,8 @@ def _rand_cell(rng, mode, kind=None):
             return ["nparr", "bool", [True, False]]
         return ["nparr", "object", [_rand_simple(rng, mode) for _ in range(rng.choice([1, 2, 3]))]]
     if kind == "nptd":
+        if rng.random() < 0.04:  # the F-C18-3 class does occur (such cases run under its guard when the cell is rendered)
+            return rng.choice([["nptd", None, "ns"], ["nptd", None, "D"], ["nptd", 3, "M"], ["nptd", 2, "Y"], ["nptd", None, "M"]])
         unit = rng.choice(LINEAR_UNITS)
         bound = min(10**6, (2**52) // UNIT_NS[unit])
         count = rng.choice([0, 1, -1, 59, 61, 3600, 86400, 90061, rng.randint(-bound, bound)])
